@@ -5,7 +5,7 @@ mod, prop, tier = sys.argv[1], sys.argv[2], sys.argv[3]
 seed = int(sys.argv[4]) if len(sys.argv) > 4 else 1
 class Rep:
     def __init__(s): s.disagreements_checked=0; s.assumption_failures=[]; s.rule=""; s.evaluations=0; s.nontrivial=set(); s.violations=[]; s.extra={}; s.counts=collections.Counter(); s.samples=[]
-    def bump(s,a,b): s.counts[(a,b)]+=1
+    def bump(s,a,b,n=1): s.counts[(a,b)]+=n
     def sample(s,x,limit=3): s.samples.append(x)
     def log(s,m): print("[log]",m)
 class Ctx:
